@@ -39,6 +39,7 @@ INDEX = {
  "C05": {"package": "./roaring", "harnesses": [
    {"name": "VerifH05OpLog", "common": {"max_depth": 2000}, "quick": {"bounds": {"steps": 2, "ops": 4, "keys": 1}}, "thorough": {"bounds": {"steps": 2, "ops": 4, "keys": 2}, "max_paths": 400000}},
    {"name": "VerifH05OpLogStep", "common": {"max_depth": 2000}, "quick": {"bounds": {"steps": 1, "ops": 6, "keys": 2}}},
+   {"name": "VerifH05FragmentFile", "package": ".", "common": {"max_depth": 4000}, "quick": {"bounds": {"steps": 3, "ops": 2, "maxopn": 4, "values": 2}}, "thorough": {"bounds": {"steps": 3, "ops": 2, "maxopn": 7, "values": 3}}},
  ]},
  "C06": {"package": "./roaring", "harnesses": [
    {"name": "VerifH06UnmarshalBinary", "common": {"max_depth": 2000}, "quick": {"bounds": {"len": 12}}, "thorough": {"bounds": {"len": 20}}},
@@ -61,6 +62,7 @@ INDEX = {
  "C09": {"package": "./roaring", "harnesses": [
    {"name": "VerifH09OpLogCrash", "common": {"max_depth": 3000}, "quick": {"bounds": {"steps": 2, "ops": 4, "keys": 1}}, "thorough": {"bounds": {"steps": 2, "ops": 4, "keys": 2}}},
    {"name": "VerifH09TranslateCrash", "package": ".", "common": {"max_depth": 3000}, "quick": {"bounds": {"batches": 2, "keys": 1, "keylen": 1, "xxhash_values": 2}}, "thorough": {"bounds": {"batches": 2, "keys": 2, "keylen": 2, "xxhash_values": 3}}},
+   {"name": "VerifH09SnapshotFiles", "package": ".", "common": {"max_depth": 4000}, "quick": {"bounds": {"steps1": 1, "steps2": 1, "ops": 4, "rows": 1}}, "thorough": {"bounds": {"steps1": 2, "steps2": 1, "ops": 5, "rows": 2}}},
    {"name": "VerifH09FragmentCrash", "package": ".", "common": {"max_depth": 3000}, "quick": {"bounds": {"steps": 2, "ops": 8, "rows": 2}}, "thorough": {"bounds": {"steps": 2, "ops": 8, "rows": 4}}},
    {"name": "VerifH09MutexCrash", "package": ".", "common": {"max_depth": 3000}, "quick": {"bounds": {"steps": 2, "ops": 4, "rows": 2}}, "thorough": {"bounds": {"steps": 3, "ops": 4, "rows": 3}}},
  ]},
